@@ -1330,6 +1330,14 @@ def interplay_docs() -> list[tuple[str, dict]]:
             if order:
                 S = {k_: S[k_] for k_ in ("Ticket", "Holder", "TicketState")}
             mk(f"enum_same_class_name_{label}_{order}", schemas=S)
+    # nullable beside an explicit type and a single-element wrapper around a reference / a formatted string
+    for version in ("3.0.3", "3.1.0"):
+        nul = (lambda t: {"type": t, "nullable": True}) if version == "3.0.3" else (lambda t: {"type": [t, "null"]})
+        S = {"Dog": {"type": "object", "properties": {"bark": {"type": "integer"}}},
+             "Holder": {"type": "object", "required": ["ra"], "properties": {
+                 "a": dict(nul("object"), allOf=[R("Dog")]), "c": dict(nul("object"), oneOf=[R("Dog")]), "e": dict(nul("object"), anyOf=[R("Dog")]), "ra": dict(nul("object"), allOf=[R("Dog")]),
+                 "d": dict(nul("string"), allOf=[{"type": "string", "format": "date"}]), "plain": dict(nul("object"), properties={"k": {"type": "string"}})}}}
+        mk(f"typed_nullable_wrapper_{version}", schemas=S, version=version)
     # tags and operation ids named after the package's own modules and dunder files
     for tag in ("types", "errors", "client", "models", "api", "init", "__init__", "default", "py.typed", "import", "None"):
         mk(f"tag_{tag}", schemas={"M": {"type": "object", "properties": {"a": {"type": "string"}}}},
